@@ -74,7 +74,7 @@ def r2(ctx: Ctx) -> None:
     inl = ("IndexMarket.get_market_index", "Market.get_fundamental_price")
     for q, leaf in chain:
         f = ctx.func(q)
-        for p in ctx.paths(q, inline=tuple(x for x in inl if x != q)):
+        for p in ctx.paths(q, inline=tuple(x for x in inl if x != q), keep=(leaf,)):
             r = strip_ver(p.exit[1]) if p.exit[0] == "return" else NONE
             ok = r[0] == "call" and key(r[1]) == f"self.{leaf}" and (dict(r[3]).get("time") == ("sym", "time") or (r[2] and r[2][0] == ("sym", "time"))) and not p.conds
             if ok and leaf == "_extract_data_by_time":
